@@ -22,7 +22,7 @@ def opaque(units):
         is_code = kind == "unit" and (u.get("fn") or "impl" in u["path"][-1] or "fn" in u["path"][-1])
         if is_code and not u.get("keep_body"):
             out.append((kind, dict(u, opaque=True, no_canary=True, loops={}, loop_body_start={}, loop_body_end={}, after_loop={}, inserts=[], body_start=None,
-                                    rewrites=[r for r in u.get("rewrites", []) if r[0] not in ("R25", "R25b", "R26-forward-ref-op", "R7")])))
+                                    rewrites=[r for r in u.get("rewrites", []) if r[0] not in ("R25", "R25b", "R25c", "R26", "R26-forward-ref-op", "R7")])))
         else:
             out.append((kind, u))
     return out
@@ -408,7 +408,7 @@ AMOUNT = [
         ensures r@ == mneg(self@),   // @Amount.neg
 """),
     U("AddAssign<Amount> for Amount", AM, [r"impl AddAssign for Amount<'_>"], fn="add_assign",
-      rewrites=[("R25b",), ("R26-forward-ref-op", "v1 += v2;", "*v1 += v2;", 1)],
+      rewrites=[("R25b",), ("R26",)],
       contract="""
         ensures final(self)@ == madd(old(self)@, rhs@),   // @Amount.add_assign.pointwise_sum_keeps_every_commodity_of_either_side
 """,
@@ -485,7 +485,7 @@ AMOUNT = [
             rhs matches PostingAmount::Single(s) ==> final(self)@ == old(self)@.insert(s.commodity, mget(old(self)@, s.commodity) + s.v()),   // @Amount.add_assign_posting
 """),
     U("SubAssign for Amount", AM, [r"impl SubAssign for Amount<'_>"], fn="sub_assign",
-      rewrites=[("R25b",), ("R26-forward-ref-op", "v1 -= v2;", "*v1 -= v2;", 1)],
+      rewrites=[("R25b",), ("R26",)],
       contract="""
         ensures final(self)@ == msub(old(self)@, rhs@),   // @Amount.sub_assign.pointwise_difference_keeps_every_commodity_of_either_side
 """,
